@@ -10,7 +10,7 @@
    parameters stored in e (g, element-valued sigma, constants) are elements of the space of
    x (they have n leaf arrays) -- the condition under which the library accepts them. *)
 From Coq Require Import Reals List Bool.
-From Verif Require Import Base.Num Base.Vec C10.Model C10.HeapLemmas C10.Leaves C10.Leaves2 C10.Leaves3 C10.Proofs.
+From Verif Require Import Base.Num Base.Vec C10.Model C10.HeapLemmas C10.Leaves C10.Leaves2 C10.Leaves3 C10.Proofs C10.Values.
 Import ListNotations.
 
 (* T1 (the property).  For EVERY operator tree e over the modelled classes (every proximal
@@ -87,6 +87,24 @@ Theorem proximal_convex_conj_aliased_ok : forall (sigma inv_sigma : sval R) (pro
   get (run_ip (o_convex_conj sigma inv_sigma prox) x x h) x
   = lin 1%R 1%R (scal (- 1)%R (mult_val sigma (pure prox (mult_val inv_sigma (get h x))))) (scal 1%R (get h x)).
 Proof. exact cc_alias_R. Qed.
+
+(* T2.  "The value prox(x) would have returned": the value-level functions are the familiar
+   closed forms.  proximal_l1 (scalar step, no data term) is soft thresholding, written as
+   u - clip(u) and as sign(u) max(|u| - c, 0); proximal_convex_conj_l1 is the projection onto the
+   box [-lam, lam]; the box proximal is min(max(u, lo), hi).  (That these ARE the proximal
+   operators of the respective functionals is property C07.) *)
+Theorem prox_l1_is_soft_thresholding : forall (lam s : R) (v : list (list R)), (0 < s * lam)%R ->
+  pure_l1 lam (Sc s) None v = e1 (fun u => u - clip (s * lam) u)%R v.
+Proof. exact l1_value. Qed.
+Theorem soft_thresholding_form : forall (c u : R), (0 <= c)%R ->
+  (u - clip c u = nsign u * Rmax (Rabs u - c) 0)%R.
+Proof. exact soft_threshold. Qed.
+Theorem prox_cc_l1_is_box_projection : forall (lam sigma : R) (v : list (list R)), (0 < lam)%R ->
+  pure_ccl1 lam sigma None v = e1 (clip lam) v.
+Proof. exact ccl1_value. Qed.
+Theorem prox_box_is_clamp : forall (lo hi : R) (v : list (list R)),
+  pure_box (BSc lo) (BSc hi) v = e1 (fun u => Rmin (Rmax u lo) hi) v.
+Proof. exact box_value. Qed.
 
 (* non-vacuity: the hypotheses are met by a concrete heap and a tree of depth 4, and by a
    DiagonalOperator of two different proximals *)
